@@ -379,6 +379,19 @@ def run_case(con, fn, argdescs):
         def fn(*a):
             with cm(*a):
                 pass
+    if hasattr(con, 'opts') and con.opts.get('stdin'):
+        # the function reads standard input: it is given the text carried by its `specs` argument
+        import io as _io
+        inner = fn
+        text = getattr(real_args[names.index('specs')], 'text', '')
+
+        def fn(*a):
+            saved = sys.stdin
+            sys.stdin = _io.TextIOWrapper(_io.BytesIO(text.encode('utf-8')), encoding='utf-8')
+            try:
+                return inner(*a)
+            finally:
+                sys.stdin = saved
     if eff is not None:
         # effectful library calls are recorded, not performed (spec/backend.py: intercept)
         import spec.backend as _SB
